@@ -150,9 +150,9 @@ structure QStep {α : Type} (S : Stage α α) (okStep : Ctl → Fwd α → Bool 
   offer : ∀ s c x, inv s → (S.fwd s c x).off <+: pend s ++ x.off
   move : ∀ s c x r, inv s →
     beatIf ((S.fwd s c x).valid && r) (S.fwd s c x).data ++ pend (S.next s c x r)
-      = pend s ++ beatIf (x.valid && S.bwd s c r) x.data
+      = pend s ++ beatIf (x.valid && S.bwd s c x r) x.data
   hold : ∀ s c x r c' x', inv s → okStep c x r c' → (S.fwd s c x).valid = true → r = false →
-    (x.valid = true → S.bwd s c r = false → x'.valid = true ∧ x'.data = x.data) →
+    (x.valid = true → S.bwd s c x r = false → x'.valid = true ∧ x'.data = x.data) →
     (S.fwd (S.next s c x r) c' x').valid = true ∧ (S.fwd (S.next s c x r) c' x').data = (S.fwd s c x).data
 
 /-- side condition on the environment induced by `okStep` -/
@@ -205,15 +205,15 @@ structure TStep {α β : Type} (S : Stage α β) (T : Trans α β) where
   init_J : ∀ x, J S.init T.init x
   init_ahead : ∀ x, ahead S.init x = []
   step_J : ∀ s τ c x r x', J s τ x →
-    (x.valid = true → S.bwd s c r = false → x'.valid = true ∧ x'.data = x.data) →
-    J (S.next s c x r) (if x.valid && S.bwd s c r then (T.step τ x.data).1 else τ) x'
+    (x.valid = true → S.bwd s c x r = false → x'.valid = true ∧ x'.data = x.data) →
+    J (S.next s c x r) (if x.valid && S.bwd s c x r then (T.step τ x.data).1 else τ) x'
   move : ∀ s τ c x r x', J s τ x →
-    (x.valid = true → S.bwd s c r = false → x'.valid = true ∧ x'.data = x.data) →
+    (x.valid = true → S.bwd s c x r = false → x'.valid = true ∧ x'.data = x.data) →
     ahead s x ++ beatIf ((S.fwd s c x).valid && r) (S.fwd s c x).data
-      = (if x.valid && S.bwd s c r then (T.step τ x.data).2 else []) ++ ahead (S.next s c x r) x'
+      = (if x.valid && S.bwd s c x r then (T.step τ x.data).2 else []) ++ ahead (S.next s c x r) x'
   offer : ∀ s τ c x, J s τ x → ahead s x ++ (S.fwd s c x).off <+: (if x.valid then (T.step τ x.data).2 else [])
   hold : ∀ s τ c x r c' x', J s τ x → (S.fwd s c x).valid = true → r = false →
-    (x.valid = true → S.bwd s c r = false → x'.valid = true ∧ x'.data = x.data) →
+    (x.valid = true → S.bwd s c x r = false → x'.valid = true ∧ x'.data = x.data) →
     (S.fwd (S.next s c x r) c' x').valid = true ∧ (S.fwd (S.next s c x r) c' x').data = (S.fwd s c x).data
 
 namespace TStep
@@ -239,7 +239,7 @@ theorem invariant (hl : S.LawIn env) (t : Nat) :
   | zero => exact ⟨P.init_J _, by simp [Stage.outs, Stage.ins, Trans.run, Trans.runFrom, Stage.state, P.init_ahead]⟩
   | succ t ih =>
     have hs := run_ins_succ (S := S) (T := T) env t
-    have hlaw : (env t).inp.valid = true → S.bwd (S.state env t) (env t).ctl (env t).rdy = false →
+    have hlaw : (env t).inp.valid = true → S.bwd (S.state env t) (env t).ctl (env t).inp (env t).rdy = false →
         (env (t+1)).inp.valid = true ∧ (env (t+1)).inp.data = (env t).inp.data := fun h1 h2 => hl t h1 h2
     constructor
     · rw [hs.1]
@@ -287,15 +287,14 @@ theorem envB_inp (t : Nat) : (envB A B env t).inp = A.out (envA A B env) t := by
   show A.fwd ((comp A B).state env t).1 _ _ = A.fwd (A.state (envA A B env) t) _ _
   rw [comp_stateA]; rfl
 theorem envA_rdy (t : Nat) : (envA A B env t).rdy = B.rin (envB A B env) t := by
-  show B.bwd ((comp A B).state env t).2 _ _ = B.bwd (B.state (envB A B env) t) _ _
+  show B.bwd ((comp A B).state env t).2 _ _ _ = B.bwd (B.state (envB A B env) t) _ _ _
   rw [comp_stateB]; rfl
 
 theorem comp_out (t : Nat) : (comp A B).out env t = B.out (envB A B env) t := by
   show B.fwd ((comp A B).state env t).2 _ _ = B.fwd (B.state (envB A B env) t) _ _
   rw [comp_stateB]; rfl
 theorem comp_rin (t : Nat) : (comp A B).rin env t = A.rin (envA A B env) t := by
-  show A.bwd ((comp A B).state env t).1 _ _ = A.bwd (A.state (envA A B env) t) _ _
-  rw [comp_stateA]; rfl
+  exact congrArg (fun s => A.bwd s (env t).ctl (env t).inp (envA A B env t).rdy) (comp_stateA A B env t)
 
 theorem comp_ins (t : Nat) : (comp A B).ins env t = A.ins (envA A B env) t := by
   induction t with
